@@ -49,7 +49,7 @@ func (a *Anchors) labelObj(obj types.Object) string {
 			return "allowed"
 		case a.is(obj, a.PlatformTest):
 			return "platform"
-		case isFunc(obj, PkgFingerprint, "", "IsTaskUpToDate"):
+		case a.isUpToDateCallee(obj):
 			return "uptodate"
 		case isFunc(obj, PkgLogger, "Logger", "Prompt"):
 			return "prompt"
